@@ -118,3 +118,57 @@ def entered(funcs, rel, qualname):
         if k.split("@")[0] == qualname and hit:
             return True
     return False
+
+
+# ------------------------------------------------------------------ the mechanism each property is anchored in
+# (file, qualified name).  A function listed here that still exists in the tree but was entered by no execution of a
+# run makes that run INCONCLUSIVE; one that no longer exists (renamed, inlined) is ignored - a refactoring is not a
+# reason to stop deciding.
+_ST, _OP, _PR, _VA = "cocoasm/statement.py", "cocoasm/operands.py", "cocoasm/program.py", "cocoasm/values.py"
+_CAS, _DSK, _VF = "cocoasm/virtualfiles/cassette.py", "cocoasm/virtualfiles/disk.py", "cocoasm/virtualfiles/virtual_file.py"
+_SRC = "cocoasm/virtualfiles/source_file.py"
+ANCHOR_FUNCS = {
+    "C01": [(_ST, "Statement.translate"), (_ST, "Statement.fit_operand_to_reserved_size"), (_OP, "IndexedOperand.translate"),
+            (_OP, "ExtendedIndexedOperand.translate"), (_OP, "ImmediateOperand.translate"), (_OP, "DirectOperand.translate"),
+            (_OP, "ExtendedOperand.translate"), (_OP, "SpecialOperand.translate"), (_OP, "InherentOperand.translate"),
+            (_PR, "Program.get_binary_array")],
+    "C02": [(_PR, "Program.translate_statements"), (_PR, "Program.save_symbol"), (_ST, "Statement.set_address"),
+            (_ST, "Statement.fix_addresses"), (_PR, "Program.get_symbol_table"), (_PR, "Program.get_statements")],
+    "C03": [(_ST, "Statement.determine_pcr_relative_sizes"), (_ST, "Statement.fix_addresses"), (_OP, "RelativeOperand.translate"),
+            (_OP, "IndexedOperand.translate"), (_OP, "ExtendedIndexedOperand.translate"), (_PR, "Program.all_sizes_fixed")],
+    "C04": [(_VA, "ExpressionValue.calculate"), (_VA, "ExpressionValue.resolve"), (_VA, "ExpressionValue.calculate_address_offset"),
+            (_PR, "Program.constant_value"), (_PR, "Program.resolve_defined_symbols"), (_PR, "Program.resolve_directive_operands")],
+    "C05": [(_OP, "PseudoOperand.translate"), (_OP, "PseudoOperand.resolve_symbols"), (_VA, "MultiByteValue.render"),
+            (_VA, "MultiByteValue.resolve_addresses"), (_VA, "StringValue.__init__"), (_VA, "NumericValue.hex_in_bytes")],
+    "C06": [(_CAS, "CassetteFile.add_file"), (_CAS, "CassetteFile.read_file"), (_CAS, "CassetteFile.read_blocks"),
+            (_CAS, "CassetteFile.append_data_blocks"), (_CAS, "CassetteFile.append_header"), (_CAS, "CassetteFile.skip_to_sequence")],
+    "C07": [(_DSK, "DiskFile.add_file"), (_DSK, "DiskFile.list_files"), (_DSK, "DiskFile.read_granule_chain"),
+            (_DSK, "DiskFile.write_to_granules"), (_DSK, "DiskFile.write_dir_entry"), (_DSK, "DiskFile.calculate_file_length")],
+    "C08": [(_DSK, "DiskFile.add_file"), (_DSK, "DiskFile.write_to_fat"), (_DSK, "DiskFile.write_to_granules"),
+            (_DSK, "DiskFile.write_dir_entry"), (_DSK, "DiskFile.find_empty_granule")],
+    "C09": [(_DSK, "DiskFile.add_file"), (_CAS, "CassetteFile.add_file"), (_VF, "VirtualFile.save_virtual_file"),
+            (_VF, "VirtualFile.open_virtual_file"), (_VF, "VirtualFile.get_coco_files")],
+    "C10": [(_VF, "VirtualFile.save_virtual_file"), (_VF, "VirtualFile.open_virtual_file"), (_VF, "VirtualFile.get_coco_files"),
+            (_SRC, "SourceFile.write_file")],
+    "C11": [(_PR, "Program.get_binary_array"), (_VF, "VirtualFile.save_virtual_file"), (_VF, "VirtualFile.add_coco_file"),
+            (_CAS, "CassetteFile.add_file"), (_DSK, "DiskFile.add_file")],
+    "C12": [(_ST, "Statement.fit_operand_to_reserved_size"), (_OP, "Operand.create_from_str"), (_ST, "Statement.translate"),
+            (_OP, "IndexedOperand.translate"), (_OP, "SpecialOperand.translate")],
+    "C13": [(_PR, "Program.process"), (_PR, "Program.process_mnemonics"), (_ST, "Statement.parse_line"),
+            (_PR, "Program.all_sizes_fixed"), (_ST, "Statement.determine_pcr_relative_sizes")],
+    "C14": [(_CAS, "CassetteFile.add_file"), (_CAS, "CassetteFile.append_header"), (_CAS, "CassetteFile.append_data_blocks"),
+            (_CAS, "CassetteFile.append_eof"), (_CAS, "CassetteFile.append_leader"), (_CAS, "CassetteFile.append_name")],
+    "C15": [(_DSK, "DiskFile.add_file"), (_DSK, "DiskFile.find_empty_granule"), (_DSK, "DiskFile.find_empty_directory_entry"),
+            (_DSK, "DiskFile.calculate_granules_needed"), (_DSK, "DiskFile.granule_in_use"), (_DSK, "DiskFile.directory_entry_in_use")],
+    "C16": [(_VF, "VirtualFile.list_files"), (_VF, "VirtualFile.save_virtual_file"), (_VF, "VirtualFile.get_coco_files"),
+            (_DSK, "DiskFile.list_files"), (_CAS, "CassetteFile.read_file")],
+    "C17": [(_PR, "Program.process"), (_PR, "Program.translate_statements"), (_ST, "Statement.parse_line")],
+    "C18": [(_PR, "Program.translate_statements"), (_ST, "Statement.fix_addresses"), (_ST, "Statement.parse_line"),
+            (_PR, "Program.save_symbol")],
+    "C19": [(_PR, "Program.process_mnemonics"), (_ST, "Statement.get_include_filename"), (_SRC, "SourceFile.read_file"),
+            (_PR, "Program.parse")],
+}
+
+
+def exists(funcs, rel, qualname):
+    return any(k.split("@")[0] == qualname for k in funcs.get(rel, {}))
